@@ -1,6 +1,6 @@
 (* C11 - Canonical form is a true normal form. *)
 From Coq Require Import List Bool Permutation.
-From Y0 Require Import Base.ListSet Dsl.Syntax Dsl.Text Dsl.Print Dsl.Build Dsl.Canon Proofs.SortP Proofs.DslP Proofs.OrderP Proofs.CanonNfP Proofs.CanonNf3P Proofs.CanonNf4P Proofs.CanonPresP.
+From Y0 Require Import Base.ListSet Dsl.Syntax Dsl.Text Dsl.Print Dsl.Build Dsl.Canon Proofs.SortP Proofs.DslP Proofs.OrderP Proofs.CanonNfP Proofs.CanonNf3P Proofs.CanonNf4P Proofs.CanonPresP Proofs.EvalP Proofs.CanonTieP.
 Import ListNotations.
 
 (* Clause 1 of the property - canonicalising a canonical form returns it unchanged - for EVERY expression and every
@@ -52,9 +52,8 @@ Proof. exact (expr_lt_tie a b). Qed.
 (* Clause 2 - expressions that differ only in presentation canonicalise to identical objects. [pres o e e'] (Proofs/CanonPresP.v)
    relates e to every e' obtained by permuting the variables on either side of a bar, permuting the factors of products and
    re-nesting products, at any depth; it carries the side conditions that the sort keys do not tie on DISTINCT members (two
-   variables of one term; two canonical factors of one product). PARTIAL in exactly that respect: ties between distinct objects
-   are not excluded by a theorem (C11_factor_ties_print_alike: they must print alike); the side condition on variables is
-   discharged for terms that mention each variable name once (C11_no_variable_ties_when_names_are_distinct). *)
+   variables of one term; two canonical factors of one product). Those side conditions are discharged below for well-formed
+   variables and for factors in operator normal form; PARTIAL for raw constructions outside that normal form. *)
 Theorem C11_presentation_invariance_partial o e e' :
   pres o e e' -> is_err (canonicalize false o e) = false -> canonicalize false o e' = canonicalize false o e.
 Proof. exact (presentation_invariance o e e'). Qed.
@@ -62,6 +61,17 @@ Proof. exact (presentation_invariance o e e'). Qed.
 Theorem C11_no_variable_ties_when_names_are_distinct o l :
   NoDup (map vn l) -> forallb (has_level o) l = true -> vtie_free o l.
 Proof. exact (vtie_free_distinct o l). Qed.
+
+(* The side conditions hold for well-formed material, by way of C12: an expression in operator normal form [wf_rt] is recovered from
+   its printed text (C12_round_trip), so two such canonical factors that tie - and therefore print alike - are the same factor; and two
+   well-formed variables [wfvar] (plain, value, or counterfactual with normalised interventions) that tie are the same variable. What
+   stays a hypothesis: products whose canonical factors are not in operator normal form (raw constructions). *)
+Theorem C11_no_factor_ties_among_normal_form_factors l : (forall x, In x l -> wf_rt x = true) -> etie_free l.
+Proof. exact (etie_free_wf l). Qed.
+
+Theorem C11_no_variable_ties_among_wellformed_variables o l :
+  forallb wfvar l = true -> forallb (has_level o) l = true -> vtie_free o l.
+Proof. exact (vtie_free_wf o l). Qed.
 
 (* not vacuous: P(B | A) * (P(C) * P(A, D))  and  (P(D, A) * P(C)) * P(B | A) *)
 Example C11_presentation_invariance_not_vacuous :
@@ -121,6 +131,8 @@ Proof. vm_compute. split; [discriminate|reflexivity]. Qed.
 Print Assumptions C11_canonicalize_is_idempotent.
 Print Assumptions C11_presentation_invariance_partial.
 Print Assumptions C11_no_variable_ties_when_names_are_distinct.
+Print Assumptions C11_no_factor_ties_among_normal_form_factors.
+Print Assumptions C11_no_variable_ties_among_wellformed_variables.
 Print Assumptions C11_canonicalize_is_idempotent_default_ordering.
 Print Assumptions C11_old_quotient_of_fractions_not_idempotent_refuted.
 Print Assumptions C11_factor_order_is_a_strict_order.
